@@ -186,7 +186,8 @@ err_t bignKeypairVal(const bign_params* params, const octet privkey[],
 	if (ecMulA(Q, ec->base, ec, d, n, stack))
 	{
 		// Q == pubkey?
-		wwTo(Q, 2 * no, Q);
+		qrTo((octet*)Q, ecX(Q), ec->f, stack);
+		qrTo((octet*)Q + no, ecY(Q, n), ec->f, stack);
 		if (!memEq(Q, pubkey, 2 * no))
 			code = ERR_BAD_PUBKEY;
 	}
